@@ -149,6 +149,16 @@ public:
     void removeAttribute();
 
     /**
+     * @brief Set the value of this XmlAttribute.
+     *
+     * Set the value of this XmlAttribute, the name and namespace
+     * of the attribute are not changed.
+     *
+     * @param value The @c std::string value to set.
+     */
+    void setValue(const std::string &value);
+
+    /**
      * @brief Set the namespace prefix for this XmlAttribute.
      *
      * Set the namespace prefix for this XmlAttribute.
